@@ -148,6 +148,101 @@ def replay_static(chk, ed, nv, cols, lattice, rng, what):
         chk.harness_error("C17 static table: '%s' did not reproduce" % what)
 
 
+def phonon_reader_tokens(chk, qi, tier, rng):
+    """read_energy on a hand-written phonon file in the documented layout in which EVERY numeric field -- q coordinates and weights
+    included -- is an opaque token: every field of the returned object is the symbol at that place (whatever notation a number is
+    written in is then float()'s business alone).  The concrete replay writes the numbers in fixed, exponent and signed notation."""
+    shapes = [(2, 2, 3)] if tier == "quick" else [(2, 2, 3), (1, 3, 3), (3, 1, 6)]
+    for nv, nq, np_ in shapes:
+        name = "read_energy[hand-written file, nv=%d, nq=%d, np=%d, all numeric fields symbolic]" % (nv, nq, np_)
+        ctx = new_context()
+        tk = Tokens(ctx)
+        lines = ["hand written", "", "  nv   nq   np   nm   na", "%4d %4d %4d %4d %4d" % (nv, nq, np_, 2, np_ // 3), ""]
+        for i in range(nv):
+            lines.append("P= %s V= %s E= %s" % (tk.new("tP%d" % i), tk.new("tV%d" % i), tk.new("tE%d" % i)))
+            for j in range(nq):
+                lines.append(" ".join(tk.new("tq_%d_%d_%d" % (i, j, a)) for a in range(3)))
+                lines += [tk.new("tw_%d_%d_%d" % (i, j, k)) for k in range(np_)]
+        lines += ["", "weight"] + [" ".join([tk.new("tc_%d_%d" % (j, a)) for a in range(3)] + [tk.new("tW%d" % j)]) for j in range(nq)]
+        fn = os.path.join(tempfile.gettempdir(), "c17_hand_%d.txt" % os.getpid())
+        with open(fn, "w") as fp:
+            fp.write("\n".join(lines) + "\n")
+        fails = []
+        t0 = time.time()
+        try:
+            with patched((qi, {"float": tk.float})):
+                d = X.run_single_path(lambda: qi.read_energy(fn), name=name)
+            n = tk.names
+            if (d.nv, d.nq, d.np, d.nm, d.na) != (nv, nq, np_, 2, np_ // 3) or len(d.volumes) != nv or len(d.weights) != nq:
+                fails.append("counts")
+            else:
+                for i in range(nv):
+                    v = d.volumes[i]
+                    if not (same(v.pressure, n["tP%d" % i], name) and same(v.volume, n["tV%d" % i], name) and same(v.energy, n["tE%d" % i], name)):
+                        fails.append("P/V/E of block %d" % i)
+                    for j in range(nq):
+                        if not all(same(v.q_points[j].coord[a], n["tq_%d_%d_%d" % (i, j, a)], name) for a in range(3)):
+                            fails.append("q coordinates of block %d q-point %d" % (i, j))
+                        if len(v.q_points[j].modes) != np_ or not all(same(v.q_points[j].modes[k], n["tw_%d_%d_%d" % (i, j, k)], name) for k in range(np_)):
+                            fails.append("frequencies of block %d q-point %d" % (i, j))
+                for j in range(nq):
+                    if not all(same(d.weights[j][0][a], n["tc_%d_%d" % (j, a)], name) for a in range(3)) or not same(d.weights[j][1], n["tW%d" % j], name):
+                        fails.append("weight line %d" % j)
+        except Exception as e:
+            fails.append("raises %s: %s" % (type(e).__name__, e))
+        finally:
+            os.unlink(fn)
+        chk.obligation(name, "unsat" if not fails else "sat", seconds=round(time.time() - t0, 3), kind="reader-structure", detail=fails[:3])
+        if fails:
+            replay_hand_written(chk, qi, fails[0])
+
+
+def replay_hand_written(chk, qi, what):
+    """A hand-written file whose numbers use fixed, exponent, signed and leading-dot notation (all accepted by float())."""
+    nums = dict(P=["-1.5e+00", "2.50E1"], V=["4.0e2", "380.125"], E=["-1.2345e3", "-1230.5"])
+    freqs = [["1.25e2", "300.5", ".5e3"], ["7.5E+01", "+210.0", "999"]]
+    wts = ["3.125e-05", "6.25e-05"]
+    lines = ["hand written", "", "  nv   nq   np   nm   na", "   2    2    3    2    1", ""]
+    for i in range(2):
+        lines.append("P= %s V= %s E= %s" % (nums["P"][i], nums["V"][i], nums["E"][i]))
+        for j in range(2):
+            lines.append("0.0 %s 1e-1" % ("2.5e-1" if j else "0"))
+            lines += freqs[j]
+    lines += ["", "weight", "0.0 0 1e-1 %s" % wts[0], "0.0 2.5e-1 1e-1 %s" % wts[1]]
+    fn = os.path.join(tempfile.gettempdir(), "c17_handr_%d.txt" % os.getpid())
+    with open(fn, "w") as fp:
+        fp.write("\n".join(lines) + "\n")
+    try:
+        d = qi.read_energy(fn)
+    except Exception as e:
+        chk.violation("phonon-file:hand-written:raises", "read_energy raises %s: %s on a hand-written file with numbers in exponent notation" % (type(e).__name__, e),
+                      dict(lines=lines))
+        return
+    finally:
+        os.unlink(fn)
+    bad = None
+    for j in range(2):
+        if abs(d.weights[j][1] - builtins.float(wts[j])) > 1e-12:
+            bad = "weight %s is read as %r" % (wts[j], d.weights[j][1])
+        if abs(d.weights[j][0][2] - 0.1) > 1e-12:
+            bad = "weight-line coordinate 1e-1 is read as %r" % (d.weights[j][0][2],)
+    for i in range(2):
+        v = d.volumes[i]
+        for got, txt in ((v.pressure, nums["P"][i]), (v.volume, nums["V"][i]), (v.energy, nums["E"][i])):
+            if abs(got - builtins.float(txt)) > 1e-9:
+                bad = "%s is read as %r" % (txt, got)
+        for j in range(2):
+            for got, txt in zip(v.q_points[j].modes, freqs[j]):
+                if abs(got - builtins.float(txt)) > 1e-9:
+                    bad = "frequency %s is read as %r" % (txt, got)
+            if abs(v.q_points[j].coord[2] - 0.1) > 1e-12:
+                bad = "q coordinate 1e-1 is read as %r" % (v.q_points[j].coord[2],)
+    if bad:
+        chk.violation("phonon-file:hand-written", "read_energy mis-reads a hand-written phonon file: %s" % bad, dict(lines=lines))
+    else:
+        chk.harness_error("C17 hand-written phonon file: '%s' did not reproduce" % what)
+
+
 def fill_command(chk, tier, rng):
     """`cij fill`: the real click callback runs on a token static file.  pandas.read_table is replaced by the contract it is used for (a
     whitespace-separated table with one header line: tokens -> symbols), fill_cij runs symbolically (exact least squares) and the frame
@@ -436,6 +531,7 @@ def main():
     rng = random.Random(seed() + 17)
     static_table(chk, ed, tier, rng)
     phonon_roundtrip(chk, qi, md, tier, rng)
+    phonon_reader_tokens(chk, qi, tier, rng)
     fill_command(chk, tier, rng)
     chk.witness("readers-reached", "sat" if chk.obligations else "unsat")
     chk.bound(static_tables="1-4 rows, 1-13 columns in mixed spellings, with and without lattice block", phonon_files="1-4 volumes, 1-4 q-points, 3-9 modes")
